@@ -30,6 +30,7 @@ Proof.
   - cbn. discriminate.
   - intros t p m _ Hp Hn. cbn in Hn. destruct p as [|p]; [lia|]. destruct p; discriminate.
   - intros t. rewrite T_init. destruct t; cbn; [discriminate|auto].
+  - cbn. rewrite total_repeat. intros _ H. discriminate H.
 Qed.
 
 (* every schedule, any number of threads, any (well-typed) action at each step, stale probes included *)
